@@ -530,9 +530,19 @@ Fixpoint re_atoms (fuel : nat) (s : str) : option (list tok * rend) :=
     else if prefixb legal_class s then
       option_map (fun r => (TLegal :: fst r, snd r)) (re_atoms f (skipn (List.length legal_class) s))
     else match s with
-         | 92 :: c :: s' => if is_meta c then option_map (fun r => (TLit c :: fst r, snd r)) (re_atoms f s') else None
-         | 46 :: 42 :: s' => option_map (fun r => (TAny :: fst r, snd r)) (re_atoms f s')
-         | c :: s' => if is_meta c then None else option_map (fun r => (TLit c :: fst r, snd r)) (re_atoms f s')
+         | c :: s' =>
+           if c =? 92 then            (* an escaped metacharacter *)
+             match s' with
+             | c2 :: s'' => if is_meta c2 then option_map (fun r => (TLit c2 :: fst r, snd r)) (re_atoms f s'') else None
+             | [] => None
+             end
+           else if c =? 46 then       (* only as ".*" *)
+             match s' with
+             | c2 :: s'' => if c2 =? 42 then option_map (fun r => (TAny :: fst r, snd r)) (re_atoms f s'') else None
+             | [] => None
+             end
+           else if is_meta c then None
+           else option_map (fun r => (TLit c :: fst r, snd r)) (re_atoms f s')
          | [] => None
          end
   end.
@@ -627,15 +637,20 @@ Definition full_path (prefix p : option gpath) : outcome str :=
   s <- str_path p ;;
   Ok (if eqb_str pp root then s else pp ++ s).
 
-(* doDelete: the path recorded in target.removes *)
-Definition do_delete (rw : list rwpath) (prefix p : option gpath) : outcome str :=
+(* doDelete: the path recorded in target.removes.  check_idx: the gNMI copy validates the index values of
+   the path with CheckPathIndexIsValid (the admin copy used by LeafSelectionQuery does not) *)
+Definition do_delete (check_idx : bool) (rw : list rwpath) (prefix p : option gpath) : outcome str :=
   path <- full_path prefix p ;;
   r <- find_path_from_model path rw false ;;
-  match r with
-  | (true, Some rp) =>
-    if rw_iskey rp && negb (suffixb [c_rbr] path) then slice path 0 (zlast_index c_slash path) else Ok path
-  | _ => Ok path
-  end.
+  path' <- match r with
+           | (true, Some rp) =>
+             if rw_iskey rp && negb (suffixb [c_rbr] path) then slice path 0 (zlast_index c_slash path) else Ok path
+           | _ => Ok path
+           end ;;
+  if check_idx then
+    idx <- extract_index_names path' ;;
+    if forallb (fun nv => index_value_ok (snd nv)) idx then Ok path' else Err c_invalid
+  else Ok path'.
 
 (* doUpdateOrReplace: the paths recorded in target.updates *)
 Definition do_update (rw : list rwpath) (prefix : option gpath) (u : option update) : outcome (list str) :=
@@ -683,7 +698,7 @@ Fixpoint set_deletes (e : env) ov (prefix : option gpath) (ds : list (option gpa
   | d :: ds' =>
     r <- get_tinfo e ov ts (set_target_id prefix (path_target d)) ;;
     let '(t, ts1) := r in
-    path <- do_delete (pl_rw (ti_plugin t)) prefix d ;;
+    path <- do_delete true (pl_rw (ti_plugin t)) prefix d ;;
     set_deletes e ov prefix ds' (put_tinfo (Build_tinfo (ti_id t) (ti_plugin t) (ti_updates t) (ti_removes t ++ [path])) ts1)
   end.
 
@@ -868,7 +883,7 @@ Fixpoint lsq_updates (rw : list rwpath) (prefix : option gpath) (us : list (opti
 Fixpoint lsq_deletes (rw : list rwpath) (prefix : option gpath) (ds : list (option gpath)) (acc : list str) : outcome (list str) :=
   match ds with
   | [] => Ok acc
-  | d :: ds' => p <- do_delete rw prefix d ;; lsq_deletes rw prefix ds' (acc ++ [p])
+  | d :: ds' => p <- do_delete false rw prefix d ;; lsq_deletes rw prefix ds' (acc ++ [p])
   end.
 
 (* the configuration BuildTree sees: deleted entries marked, accepted updates overwrite / extend *)
